@@ -72,6 +72,14 @@ POSITIONS = [
     ('cte_foreign_used_in_subquery', 'WITH c AS (SELECT * FROM {A}.t2) SELECT * FROM int1.t1 WHERE id IN (SELECT id FROM c)', ['t2', 't1']),
     ('cte_foreign_used_in_target', 'WITH c AS (SELECT * FROM {A}.t2) SELECT id, (SELECT max(b) FROM c) AS m FROM int1.t1', ['t2', 't1']),
     ('cte_two_integrations', 'WITH c AS (SELECT * FROM {A}.t2), d AS (SELECT * FROM int1.t3) SELECT * FROM c JOIN d ON c.id = d.id', ['t2', 't3']),
+    # star targets qualified with the integration (and the table), alone, in joins, in derived tables and in CTE bodies
+    ('qualified_star', 'SELECT {A}.t2.* FROM {A}.t2', ['t2']),
+    ('qualified_star_where', 'SELECT {A}.t2.*, {A}.t2.id FROM {A}.t2 WHERE {A}.t2.b = 1', ['t2']),
+    ('qualified_star_join', 'SELECT {A}.t2.*, t1.id FROM {A}.t2 JOIN int1.t1 ON t1.id = t2.id', ['t2', 't1']),
+    ('qualified_star_same_integration_join', 'SELECT {A}.t2.*, u.id FROM {A}.t2 JOIN {A}.t2 AS u ON t2.id = u.id', ['t2', 't2']),
+    ('qualified_star_in_derived_table', 'SELECT * FROM int1.t1 JOIN (SELECT {A}.t2.* FROM {A}.t2) AS s ON t1.id = s.id', ['t1', 't2']),
+    ('qualified_star_in_cte', 'WITH c AS (SELECT {A}.t2.* FROM {A}.t2) SELECT * FROM c JOIN int1.t1 ON c.id = t1.id', ['t2', 't1']),
+    ('qualified_star_insert_select', 'INSERT INTO int1.t1 SELECT {A}.t2.* FROM {A}.t2', ['t2']),
     ('subquery_same_integration_as_probe', 'SELECT * FROM {A}.t2 WHERE id IN (SELECT t1.id FROM int1.t1 JOIN {A}.t2 AS u ON t1.id = u.id)', ['t2', 't1', 't2']),
 ]
 
@@ -223,7 +231,7 @@ class CHECK(Check):
                     if pl.startswith('schema_named_like_other_integration') and ps[:2] == ['int2', 't1']:
                         continue     # the schema part of the table name, not an integration qualifier
                     if len(ps) > 1 and ps[0] in ('int1', 'int2') and 'alias' not in [p for p in path if isinstance(p, str)]:
-                        out.append((f'qualifier-not-removed|{pl}', f'{sql!r} [{cat}]: fetch on {f.integration} contains identifier {".".join(idn.parts)}'))
+                        out.append((f'qualifier-not-removed|{pl}', f'{sql!r} [{cat}]: fetch on {f.integration} contains identifier {".".join(map(str, idn.parts))}'))
                         break
         # the filter of a DELETE is sent to the table's integration as well: no integration qualifier may stay in it
         for st in steps:
